@@ -7,5 +7,5 @@ Extraction Language OCaml.
 Set Extraction KeepSingleton.
 Extraction "model_k3ticket.ml"
   replay_ticket step init event_eqb slot_of slot_at ent cid_of
-  real_cap real_cc real_n real_kk
+  real_cap real_cc real_n real_kk mkRun mkB
   eLoad eStore eFadd eFsub eCas eFence eLock eUnlock eSpin eData.
